@@ -4,6 +4,7 @@ package c08
 import (
 	"fmt"
 	"net/http"
+	"strings"
 	"testing"
 
 	"github.com/gookit/rux"
@@ -21,12 +22,35 @@ var codeGen = rapid.OneOf(
 	rapid.IntRange(100, 599),
 )
 
+// plainWrites turns WriteString ops into plain writes: Context.WriteString panics on a write error, and a write fault
+// combined with it is a panic scenario (C09's business), not a commit scenario.
+func plainWrites(scripts ...*chain.Script) {
+	for _, s := range scripts {
+		if s == nil {
+			continue
+		}
+		for i := range s.Ops {
+			if s.Ops[i].K == chain.OpWrite {
+				s.Ops[i].N = 0
+			}
+		}
+	}
+}
+
 func genOp(t *rapid.T) chain.Op {
 	switch rapid.IntRange(0, 11).Draw(t, "op") {
 	case 0, 1, 2:
 		return chain.Op{K: chain.OpStatus, N: codeGen.Draw(t, "code")}
 	case 3, 4, 5:
-		return chain.Op{K: chain.OpWrite, S: rapid.StringMatching(`[a-z]{0,8}`).Draw(t, "data")}
+		op := chain.Op{K: chain.OpWrite, S: rapid.StringMatching(`[a-z]{0,8}`).Draw(t, "data")}
+		if rapid.IntRange(0, 9).Draw(t, "bigWrite") == 0 {
+			// bodies beyond any small buffer: 1-5 KB
+			op.S = strings.Repeat(op.S+"0123456789abcdef", rapid.IntRange(70, 300).Draw(t, "bigReps"))
+		}
+		if rapid.IntRange(0, 3).Draw(t, "viaWriteString") == 0 {
+			op.N = 1 // Context.WriteString instead of Resp.Write
+		}
+		return op
 	case 6, 7:
 		return chain.Op{K: chain.OpFlush}
 	case 8:
@@ -110,6 +134,9 @@ func genCase(t *rapid.T, w *chain.World) (*chain.Program, []chain.Op, []chain.Fa
 			hook = append(hook, genOp(t))
 		}
 		prog.Hooks.OnPanic = w.NewScript("onpanic", hook...)
+	}
+	if len(faults) > 0 {
+		plainWrites(append(append([]*chain.Script{}, scripts...), prog.Hooks.OnError, prog.Hooks.OnPanic)...)
 	}
 	return prog, all, faults
 }
@@ -209,7 +236,11 @@ func genForward(t *rapid.T, w *chain.World) (*chain.Program, []chain.Fault) {
 	if rapid.IntRange(0, 3).Draw(t, "faulty") == 0 {
 		faults = append(faults, chain.Fault{Write: rapid.IntRange(0, 3).Draw(t, "faultAt"), Accept: rapid.IntRange(0, 3).Draw(t, "accept")})
 	}
-	return &chain.Program{Opts: model.Options{}, Body: []*chain.Stmt{x, y}}, faults
+	prog := &chain.Program{Opts: model.Options{}, Body: []*chain.Stmt{x, y}}
+	if len(faults) > 0 {
+		plainWrites(prog.AllScripts()...)
+	}
+	return prog, faults
 }
 
 func propForward(t *rapid.T) {
@@ -274,6 +305,9 @@ func propHandlerFunc(t *rapid.T) {
 	var faults []chain.Fault
 	if rapid.IntRange(0, 3).Draw(t, "faulty") == 0 {
 		faults = append(faults, chain.Fault{Write: rapid.IntRange(0, 3).Draw(t, "faultAt"), Accept: rapid.IntRange(0, 3).Draw(t, "accept")})
+	}
+	if len(faults) > 0 {
+		plainWrites(s)
 	}
 	st := w.NewRequest("GET", "/direct", faults...)
 	var h http.Handler = rux.HandlerFunc(w.Handler(s))
